@@ -27,7 +27,7 @@ class ReconnH(explore.Harness):
     def __init__(self, p):
         self.p = p
         self.hosts = list(p["hosts"])
-        self.rig = IpRig(seed=p.get("seed", 0), hosts=self.hosts, auto=False)
+        self.rig = IpRig(seed=p.get("seed", 0), hosts=self.hosts, auto=False, env=p.get("env"))
         self.rig.auto_deliver = True
         self.loop, self.net, self.pairing, self.conn = self.rig.loop, self.rig.net, self.rig.pairing, self.rig.conn
         def _bad_sub(sess, method, target, headers, body):
